@@ -15,6 +15,144 @@ class AnchorError(Exception):
     """An anchor (function, class, construct) the rule needs cannot be resolved."""
 
 
+def _stdlib_logger_names(tree: ast.Module) -> set:
+    """module-level names bound to the stdlib logging module or to a logger obtained from it"""
+    mods, loggers = set(), set()
+    for n in tree.body:
+        if isinstance(n, ast.Import):
+            for al in n.names:
+                if al.name == "logging":
+                    mods.add(al.asname or "logging")
+        elif isinstance(n, ast.ImportFrom) and n.module == "logging":
+            for al in n.names:
+                if al.name == "getLogger":
+                    mods.add("<getLogger>:" + (al.asname or al.name))
+    for n in tree.body:
+        if isinstance(n, ast.Assign) and isinstance(n.value, ast.Call):
+            f = n.value.func
+            ok = (isinstance(f, ast.Attribute) and f.attr == "getLogger" and isinstance(f.value, ast.Name) and f.value.id in mods) or \
+                 (isinstance(f, ast.Name) and "<getLogger>:" + f.id in mods)
+            if ok:
+                for t in n.targets:
+                    if isinstance(t, ast.Name):
+                        loggers.add(t.id)
+    return {m for m in mods if not m.startswith("<")} | loggers
+
+
+_PURE_ARG = (ast.Constant, ast.Name, ast.Attribute, ast.JoinedStr, ast.FormattedValue, ast.Subscript, ast.BinOp, ast.Tuple,
+             ast.Load, ast.operator, ast.keyword)
+_LOG_METHODS = {"debug", "info", "warning", "warn", "error", "exception", "critical", "log"}
+
+
+class _Subst(ast.NodeTransformer):
+    def __init__(self, target: ast.Name, value: ast.AST):
+        self.target, self.value = target, value
+
+    def visit_Name(self, n):
+        return self.value if n is self.target else n
+
+
+class _SurfaceNormaliser(ast.NodeTransformer):
+    def __init__(self, logger_names: set):
+        self.loggers = logger_names
+        self.depth = 0
+        self.count = 0
+
+    def run(self, tree: ast.Module) -> int:
+        self.visit(tree)
+        return self.count
+
+    def visit_FunctionDef(self, n):
+        self.depth += 1
+        self.generic_visit(n)
+        self.depth -= 1
+        if self.depth == 0:
+            self._inline_explaining_vars(n)
+            self._flatten_else(n)
+        return n
+
+    # `if c: ...; return` + `else: B`  ==  `if c: ...; return` followed by B (canonical form: flattened); elif chains are
+    # left alone (rules read them as dispatch tables)
+    def _flatten_else(self, fn) -> None:
+        def term(body):
+            return bool(body) and isinstance(body[-1], (ast.Return, ast.Raise, ast.Continue, ast.Break))
+
+        changed = True
+        while changed:
+            changed = False
+            for node in ast.walk(fn):
+                for fld in ("body", "orelse", "finalbody"):
+                    b = getattr(node, fld, None)
+                    if not (isinstance(b, list) and b and isinstance(b[0], ast.stmt)):
+                        continue
+                    if fld == "orelse" and isinstance(node, ast.If) and len(b) == 1 and isinstance(b[0], ast.If):
+                        continue
+                    out = []
+                    for st in b:
+                        out.append(st)
+                        if isinstance(st, ast.If) and st.orelse and term(st.body) and not (len(st.orelse) == 1 and isinstance(st.orelse[0], ast.If)):
+                            out.extend(st.orelse)
+                            st.orelse = []
+                            changed = True
+                            self.count += 1
+                    b[:] = out
+
+    visit_AsyncFunctionDef = visit_FunctionDef
+
+    # `c = <expr>` immediately followed by the only use of `c` (the test of an `if`, or anywhere in a simple statement)
+    # is the spelling `if <expr>:` with an explaining variable: inline it back
+    def _inline_explaining_vars(self, fn) -> None:
+        import collections
+        cnt = collections.Counter(x.id for x in ast.walk(fn) if isinstance(x, ast.Name))
+        for x in ast.walk(fn):
+            if isinstance(x, (ast.Global, ast.Nonlocal)):
+                for nm in x.names:
+                    cnt[nm] += 10
+        for node in ast.walk(fn):
+            for fld in ("body", "orelse", "finalbody"):
+                b = getattr(node, fld, None)
+                if not (isinstance(b, list) and b and isinstance(b[0], ast.stmt)):
+                    continue
+                i = 0
+                while i + 1 < len(b):
+                    st, nx = b[i], b[i + 1]
+                    if isinstance(st, ast.Assign) and len(st.targets) == 1 and isinstance(st.targets[0], ast.Name) \
+                            and cnt[st.targets[0].id] == 2 and not isinstance(st.value, (ast.Yield, ast.YieldFrom, ast.Await)):
+                        v = st.targets[0].id
+                        if isinstance(nx, ast.If):
+                            hdr = [nx.test]
+                        elif isinstance(nx, (ast.Assign, ast.AugAssign, ast.Return, ast.Expr, ast.Raise, ast.Assert)):
+                            hdr = [nx]
+                        else:
+                            hdr = []
+                        uses = [y for h in hdr for y in ast.walk(h) if isinstance(y, ast.Name) and y.id == v and isinstance(y.ctx, ast.Load)]
+                        if len(uses) == 1 and not any(isinstance(y, (ast.Lambda, ast.ListComp, ast.SetComp, ast.DictComp, ast.GeneratorExp))
+                                                      for h in hdr for y in ast.walk(h)):
+                            _Subst(uses[0], st.value).visit(nx)
+                            del b[i]
+                            self.count += 1
+                            continue
+                    i += 1
+
+
+    def visit_AnnAssign(self, n: ast.AnnAssign):
+        if not self.depth:
+            return n
+        self.count += 1
+        if n.value is None:
+            return ast.copy_location(ast.Pass(), n)
+        return ast.copy_location(ast.Assign(targets=[n.target], value=n.value, type_comment=None), n)
+
+    def visit_Expr(self, n: ast.Expr):
+        c = n.value
+        if self.depth and self.loggers and isinstance(c, ast.Call) and isinstance(c.func, ast.Attribute) and c.func.attr in _LOG_METHODS \
+                and isinstance(c.func.value, ast.Name) and c.func.value.id in self.loggers \
+                and all(isinstance(x, _PURE_ARG) for a in list(c.args) + [k.value for k in c.keywords] for x in ast.walk(a)):
+            self.count += 1
+            return ast.copy_location(ast.Pass(), n)
+        return n
+
+
 class Module:
     def __init__(self, name: str, path: str, relpath: str, src: str):
         self.name = name
@@ -24,6 +162,9 @@ class Module:
         self.digest = hashlib.sha256(src.encode("utf-8")).hexdigest()
         self.tree = ast.parse(src, filename=path)
         self.lines = src.splitlines()
+        # surface normalisation (in memory only): annotated assignments inside functions become plain ones, statements
+        # that only talk to the standard library's logging become `pass` - both are behaviour-neutral spellings
+        self.normalised = _SurfaceNormaliser(_stdlib_logger_names(self.tree)).run(self.tree)
         # alpha-normalise locals back to the names the rules use (see sa/localsig.py); in-memory only
         from . import localsig
         self.renamed_locals = localsig.normalise(self.tree, name)
